@@ -324,7 +324,7 @@ pub fn exec_why(req: &str) -> String {
     let kg = match build_kg(&items) { Ok(k) => k, Err(e) => return e };
     let tq = match transformed_query(&q) { Some(t) => t, None => return "bad-request:query".into() };
     let derived = match kg.h.get_storage().execute_and_get_context("default", &tq) { Ok((_, _, _, d, _)) => d, Err(e) => return format!("err:engine:{}", if std::env::var("PROV_DEBUG").is_ok() { e.to_string() } else { String::new() }) };
-    let res = match run_stmt(&kg.h, &format!(".why {}", query_text(&q))) { Ok(r) => r, Err(_) => return "err:why".into() };
+    let res = match run_stmt(&kg.h, &format!(".why {}", query_text(&q))) { Ok(r) => r, Err(e) => return format!("err:why:{}", if std::env::var("PROV_DEBUG").is_ok() { e } else { String::new() }) };
     let mut out = format!("{} | D {}", kg.perm_wire(), db_to_wire(&derived));
     match res.proof_trees {
         None => out.push_str(" | none"),
